@@ -8,6 +8,12 @@
 //                plus, for IPv4 requests, ICMP errors from strangers quoting a different packet.
 //                Network header variants: IPv4 without options / with stream-id (24-byte header) / NOOP + record-route (32),
 //                IPv6 without / with one (8 bytes) / with two (8 + 16 bytes) extension headers; the mirror carries the same.
+//   part "min":  minimal-size mirrors: every stack (and every prefix of it, and every matcher class called directly) with each
+//                layer in its minimal form (no payload, no options, no question), reply buffer = exactly the sum of the header
+//                sizes (exact-size malloc block), the same + 1 trailing byte, and as serialized under padding link layers; all
+//                must be accepted.  Every concrete class of the GENERATED class table whose matches_response is an override must
+//                be the last reply layer of at least one such case with 0 and with 1 byte behind it.  Every proper prefix
+//                of every minimal reply is matched under the safety oracle only.
 //   part "hist": run first in every process: the base request of every (stack, header variant) is judged in ascending
 //                header-size order, in descending order, then the very first one again; every verdict must be what the
 //                oracle says and identical in all passes (matchers must not depend on the history of earlier calls).
@@ -22,6 +28,8 @@
 #include <tins/pdu_cacher.h>
 #include <tins/pktap.h>
 #include <tins/loopback.h>
+#include <type_traits>
+#include "tins_all_headers.inc"   // generated (lib/gen.py): every header below include/tins, so that every class of classes.inc is complete
 
 using namespace Tins;
 using namespace mc;
@@ -700,6 +708,223 @@ static int hist_pass(int rot, bool verbose) {
     return bad;
 }
 
+// ------------------------------------------------------------------ minimal-mirror part
+// Which classes have a matcher of their own is read from the tree being checked: the generated table lists every concrete PDU
+// class, and the class that DECLARES T::matches_response is visible in the type of the member pointer.
+template <class C> static C matcher_owner(bool (C::*)(const uint8_t*, uint32_t) const);
+template <class T> struct has_own_matcher {
+    typedef decltype(matcher_owner(&T::matches_response)) owner;
+    static const bool value = !std::is_same<owner, PDU>::value;
+};
+struct ClsRow { std::string name; const std::type_info* ti; bool overrides; };
+static const std::vector<ClsRow>& class_table() {
+    static std::vector<ClsRow> rows;
+    if (rows.empty()) {
+#define TINS_PDU_CONCRETE(Q, ID, DEFCTOR, BUFCTOR) rows.push_back(ClsRow{#Q, &typeid(Q), has_own_matcher<Q>::value});
+#include "classes.inc"
+#undef TINS_PDU_CONCRETE
+    }
+    return rows;
+}
+static std::string class_of(const PDU& p) {
+    for (auto& r : class_table()) if (*r.ti == typeid(p)) return r.name;
+    return "";
+}
+
+// One layer of a minimal case: the request layer, the mirrored reply layer (built separately, field by field), and the size the
+// protocol gives the reply layer in its minimal form (RFC 791/8200/793/768/792/4443/1035/951/2131/8415/826, IEEE 802.3/802.1Q).
+struct Atom { std::string name; std::function<PDU*()> req, rep; int size; };
+
+static const Mac MIN_A_MAC("00:00:00:00:00:01"), MIN_B_MAC("00:00:00:00:00:02");
+static const IPv4Address MIN_A4("10.0.0.1"), MIN_B4("10.0.0.2");
+static const IPv6Address MIN_A6("2001:db8::1"), MIN_B6("2001:db8::2");
+
+static const std::map<std::string, Atom>& atoms() {
+    static std::map<std::string, Atom> m;
+    if (!m.empty()) return m;
+    auto add = [&](const std::string& n, std::function<PDU*()> rq, std::function<PDU*()> rp, int size) { m[n] = Atom{n, rq, rp, size}; };
+    add("eth", []() -> PDU* { return new EthernetII(MIN_B_MAC, MIN_A_MAC); },
+               []() -> PDU* { EthernetII* e = new EthernetII(); e->dst_addr(MIN_A_MAC); e->src_addr(MIN_B_MAC); return e; }, 14);
+    add("dot3", []() -> PDU* { return new Dot3(MIN_B_MAC, MIN_A_MAC); },
+                []() -> PDU* { Dot3* e = new Dot3(); e->dst_addr(MIN_A_MAC); e->src_addr(MIN_B_MAC); return e; }, 14);
+    add("dot1q", []() -> PDU* { return new Dot1Q(100); }, []() -> PDU* { Dot1Q* q = new Dot1Q(); q->id(100); q->priority(5); return q; }, 4);
+    add("loop", []() -> PDU* { return new Loopback(); }, []() -> PDU* { return new Loopback(); }, 4);
+    add("radiotap", []() -> PDU* { return new RadioTap(); },      // reply: a radiotap header without fields (version 0, length 8, present 0)
+                    []() -> PDU* { static const uint8_t h[8] = {0, 0, 8, 0, 0, 0, 0, 0}; return new RawPDU(h, 8); }, 8);
+    add("ip4", []() -> PDU* { IP* ip = new IP(MIN_B4, MIN_A4); ip->ttl(64); return ip; },
+               []() -> PDU* { IP* ip = new IP(); ip->dst_addr(MIN_A4); ip->src_addr(MIN_B4); ip->ttl(57); ip->id(0x4321); return ip; }, 20);
+    add("ip6", []() -> PDU* { IPv6* ip = new IPv6(MIN_B6, MIN_A6); ip->hop_limit(64); return ip; },
+               []() -> PDU* { IPv6* ip = new IPv6(); ip->dst_addr(MIN_A6); ip->src_addr(MIN_B6); ip->hop_limit(57); return ip; }, 40);
+    add("tcp", []() -> PDU* { TCP* t = new TCP(53, 0x100); t->flags(TCP::SYN); t->seq(7); return t; },
+               []() -> PDU* { TCP* t = new TCP(); t->dport(0x100); t->sport(53); t->flags(TCP::SYN | TCP::ACK); t->ack_seq(8); return t; }, 20);
+    add("udp", []() -> PDU* { return new UDP(53, 0x100); }, []() -> PDU* { UDP* u = new UDP(); u->dport(0x100); u->sport(53); return u; }, 8);
+    add("udp-bootp", []() -> PDU* { return new UDP(67, 68); }, []() -> PDU* { UDP* u = new UDP(); u->dport(68); u->sport(67); return u; }, 8);
+    add("udp-dhcp6", []() -> PDU* { return new UDP(547, 546); }, []() -> PDU* { UDP* u = new UDP(); u->dport(546); u->sport(547); return u; }, 8);
+    add("icmp-echo", []() -> PDU* { ICMP* c = new ICMP(ICMP::ECHO_REQUEST); c->id(0x00ff); c->sequence(0xff00); return c; },
+                     []() -> PDU* { ICMP* c = new ICMP(); c->type(ICMP::ECHO_REPLY); c->id(0x00ff); c->sequence(0xff00); return c; }, 8);
+    add("icmp-timestamp", []() -> PDU* { ICMP* c = new ICMP(ICMP::TIMESTAMP_REQUEST); c->id(0x00ff); c->sequence(0xff00); return c; },
+                          []() -> PDU* { ICMP* c = new ICMP(); c->type(ICMP::TIMESTAMP_REPLY); c->id(0x00ff); c->sequence(0xff00); c->receive_timestamp(5); return c; }, 20);
+    add("icmp-addrmask", []() -> PDU* { ICMP* c = new ICMP(ICMP::ADDRESS_MASK_REQUEST); c->id(0x00ff); c->sequence(0xff00); return c; },
+                         []() -> PDU* { ICMP* c = new ICMP(); c->type(ICMP::ADDRESS_MASK_REPLY); c->id(0x00ff); c->sequence(0xff00); c->address_mask("255.0.0.0"); return c; }, 12);
+    add("icmp6-echo", []() -> PDU* { ICMPv6* c = new ICMPv6(ICMPv6::ECHO_REQUEST); c->identifier(0x00ff); c->sequence(0xff00); return c; },
+                      []() -> PDU* { ICMPv6* c = new ICMPv6(); c->type(ICMPv6::ECHO_REPLY); c->identifier(0x00ff); c->sequence(0xff00); return c; }, 8);
+    // DNS: the reply is a header-only message (no question, no records); the request with and without a question
+    add("dns-q", []() -> PDU* { DNS* d = new DNS(); d->id(0x1234); d->type(DNS::QUERY); d->add_query(DNS::query("www.example.com", DNS::A, DNS::IN)); return d; },
+                 []() -> PDU* { DNS* d = new DNS(); d->id(0x1234); d->type(DNS::RESPONSE); d->rcode(2); return d; }, 12);
+    add("dns-0", []() -> PDU* { DNS* d = new DNS(); d->id(0x1234); d->type(DNS::QUERY); return d; },
+                 []() -> PDU* { DNS* d = new DNS(); d->id(0x1234); d->type(DNS::RESPONSE); return d; }, 12);
+    add("bootp", []() -> PDU* { BootP* b = new BootP(); b->opcode(1); b->xid(0x01020304); return b; },
+                 []() -> PDU* { BootP* b = new BootP(); b->opcode(2); b->xid(0x01020304); b->yiaddr("10.0.0.9"); b->vend(BootP::vend_type()); return b; }, 236);
+    // ... and with the 64-byte vendor area of RFC 951
+    add("bootp-300", []() -> PDU* { BootP* b = new BootP(); b->opcode(1); b->xid(0x01020304); return b; },
+                     []() -> PDU* { BootP* b = new BootP(); b->opcode(2); b->xid(0x01020304); return b; }, 300);
+    // a DHCP request answered by a plain BOOTP reply of exactly the fixed size, and by a minimal DHCP message (cookie + type + END)
+    add("dhcp-b", []() -> PDU* { DHCP* d = new DHCP(); d->xid(0x01020304); d->type(DHCP::DISCOVER); d->end(); return d; },
+                  []() -> PDU* { BootP* b = new BootP(); b->opcode(2); b->xid(0x01020304); b->vend(BootP::vend_type()); return b; }, 236);
+    add("dhcp-d", []() -> PDU* { DHCP* d = new DHCP(); d->xid(0x01020304); d->type(DHCP::DISCOVER); d->end(); return d; },
+                  []() -> PDU* { DHCP* d = new DHCP(); d->opcode(2); d->xid(0x01020304); d->type(DHCP::OFFER); d->end(); return d; }, 244);
+    add("dhcp6", []() -> PDU* { DHCPv6* d = new DHCPv6(); d->msg_type(DHCPv6::SOLICIT); d->transaction_id(0x010203); return d; },
+                 []() -> PDU* { DHCPv6* d = new DHCPv6(); d->msg_type(DHCPv6::ADVERTISE); d->transaction_id(0x010203); return d; }, 4);
+    add("arp", []() -> PDU* { ARP* a = new ARP(MIN_B4, MIN_A4, Mac("00:00:00:00:00:00"), MIN_A_MAC); a->opcode(ARP::REQUEST); return a; },
+               []() -> PDU* { ARP* a = new ARP(); a->opcode(ARP::REPLY); a->sender_ip_addr(MIN_B4); a->sender_hw_addr(MIN_B_MAC);
+                              a->target_ip_addr(MIN_A4); a->target_hw_addr(MIN_A_MAC); return a; }, 28);
+    add("raw", []() -> PDU* { return new RawPDU("x"); }, []() -> PDU* { return new RawPDU(""); }, 0);
+    return m;
+}
+
+typedef std::vector<std::string> MPath;
+static std::string path_name(const MPath& p) { std::string s; for (size_t i = 0; i < p.size(); ++i) s += (i ? "/" : "") + p[i]; return s; }
+
+static std::vector<MPath> min_paths() {
+    std::vector<MPath> out;
+    std::set<std::string> seen;
+    auto add = [&](const MPath& full) {           // the path and every non-empty prefix of it (truncated stacks)
+        for (size_t n = 1; n <= full.size(); ++n) {
+            MPath p(full.begin(), full.begin() + n);
+            if (seen.insert(path_name(p)).second) out.push_back(p);
+        }
+    };
+    std::vector<MPath> roots = {{}, {"eth"}, {"eth", "dot1q"}, {"dot1q"}, {"loop"}};
+    std::vector<MPath> over4 = {{"tcp"}, {"udp"}, {"icmp-echo"}, {"icmp-timestamp"}, {"icmp-addrmask"}, {"udp", "dns-q"}, {"udp", "dns-0"},
+                                {"udp-bootp", "bootp"}, {"udp-bootp", "bootp-300"}, {"udp-bootp", "dhcp-b"}, {"udp-bootp", "dhcp-d"}};
+    std::vector<MPath> over6 = {{"tcp"}, {"udp"}, {"icmp6-echo"}, {"udp", "dns-q"}, {"udp", "dns-0"}, {"udp-dhcp6", "dhcp6"}};
+    for (auto& r : roots) {
+        for (auto& t : over4) { MPath p = r; p.push_back("ip4"); p.insert(p.end(), t.begin(), t.end()); add(p); }
+        for (auto& t : over6) { MPath p = r; p.push_back("ip6"); p.insert(p.end(), t.begin(), t.end()); add(p); }
+    }
+    add({"eth", "arp"}); add({"dot3"}); add({"radiotap"});
+    // every matcher class called directly on a bare object
+    for (const char* a : {"arp", "tcp", "udp", "icmp-echo", "icmp-timestamp", "icmp-addrmask", "icmp6-echo", "dns-q", "dns-0", "bootp", "bootp-300", "dhcp-b", "dhcp-d",
+                          "dhcp6", "raw"}) add({a});
+    return out;
+}
+
+struct MinCover { std::set<std::string> exact, plus1, tried_exact, tried_plus1; };   // accepted / attempted, per class
+static MinCover g_cover;
+
+struct MinCase { std::unique_ptr<PDU> req; Bytes exact, serialized; std::vector<std::string> classes; std::vector<int> sizes; std::string err; };
+
+static void build_min_case(const MPath& path, MinCase& c) {
+    std::unique_ptr<PDU> rep;
+    int total = 0;
+    for (auto& an : path) {
+        const Atom& a = atoms().at(an);
+        std::unique_ptr<PDU> q(a.req()), p(a.rep());
+        push(c.req, *q); push(rep, *p);
+        c.sizes.push_back(a.size); total += a.size;
+    }
+    // a UDP request is only matchable with a payload (documented: UDP::matches_response needs a child): the reply stays header-only
+    if (atoms().at(path.back()).name.compare(0, 3, "udp") == 0) { push(c.req, RawPDU("ping")); c.sizes.push_back(0); }
+    for (PDU* l = c.req.get(); l; l = l->inner_pdu()) c.classes.push_back(class_of(*l));
+    c.req->serialize();                        // as send_recv: the request is sent before anything is matched
+    c.serialized = rep->serialize();
+    // self-check: the reply is the sum of the protocol's minimal header sizes, followed only by link-layer zero padding
+    bool pads = path[0] == "eth" || path[0] == "dot1q";
+    if ((int)c.serialized.size() < total || (!pads && (int)c.serialized.size() != total)) { c.err = "size " + str(c.serialized.size()) + " != " + str(total); return; }
+    for (size_t i = total; i < c.serialized.size(); ++i) if (c.serialized[i]) { c.err = "non-zero byte after the headers"; return; }
+    c.exact.assign(c.serialized.begin(), c.serialized.begin() + total);
+}
+
+// variants: exact | plus1 | plus1ff | padded | cut<N> (the first N bytes of the exact reply, safety oracle only)
+static int run_min_case(const MPath& path, const std::string& only_var, bool verbose) {
+    int bad = 0;
+    std::string pn = path_name(path);
+    MinCase c;
+    build_min_case(path, c);
+    if (!c.err.empty()) { R.violation("harness:minimal-reply-size:" + pn, c.err + " serialized=" + hex(c.serialized), "part=min path=" + pn + " var=exact"); return 1; }
+    std::string last_cls = c.classes[path.size() - 1];
+    auto eval = [&](const std::string& var, const Bytes& reply, bool judged, int trailing) {
+        if (!only_var.empty() && only_var != var) return;
+        Block b(reply.data(), reply.size());
+        Outcome o = call_match(*c.req, b.p, (uint32_t)b.n, pn);
+        R.count("evaluations"); R.count(judged ? "minimal_mirror_evaluations" : "minimal_prefix_evaluations");
+        std::string kase = "part=min path=" + pn + " var=" + var;
+        if (verbose) printf("%s %s: %zu-byte reply %s -> %s\n", pn.c_str(), var.c_str(), reply.size(), hex(reply).c_str(),
+                            o == O_TRUE ? "true" : o == O_FALSE ? "false" : o == O_TINS_EXC ? "libtins exception" : g_bad.c_str());
+        if (o == O_BAD) { R.violation(g_bad, "minimal reply " + pn + " " + var + ": " + hex(reply) + " " + Mon::first_detail, kase); bad++; return; }
+        if (!judged) { R.count(o == O_TRUE ? "minimal_prefix_accepted" : "minimal_prefix_rejected"); return; }
+        R.dist("distinct_minimal_cases", fnv(pn + var));
+        auto cover = [&](std::set<std::string>& ex, std::set<std::string>& p1) {
+            // layer i of the request sees what is left of the buffer from its own header on
+            int left = (int)reply.size();
+            for (size_t i = 0; i < c.classes.size(); ++i) {
+                int own = c.sizes[i];
+                if (!c.classes[i].empty() && left == own) ex.insert(c.classes[i]);
+                if (!c.classes[i].empty() && left == own + 1) p1.insert(c.classes[i]);
+                left -= own;
+            }
+        };
+        if (trailing == 0 || trailing == 1) cover(g_cover.tried_exact, g_cover.tried_plus1);
+        if (o != O_TRUE) {
+            R.violation("match:minimal-mirror-rejected:" + (last_cls.empty() ? pn : last_cls) + ":" + (var == "plus1ff" ? "plus1" : var),
+                        "the mirrored reply in minimal form (" + pn + ", " + str(reply.size()) + " bytes = header sizes" +
+                        (trailing > 0 ? " + " + str(trailing) + " trailing byte(s)" : "") + ") is rejected; request layers: " + path_name(c.classes) +
+                        " reply=" + hex(reply), kase);
+            bad++;
+            return;
+        }
+        R.count("minimal_mirrors_accepted");
+        if (trailing == 0 || trailing == 1) cover(g_cover.exact, g_cover.plus1);
+    };
+    eval("exact", c.exact, true, 0);
+    Bytes p1 = c.exact; p1.push_back(0x00); eval("plus1", p1, true, 1);
+    Bytes pf = c.exact; pf.push_back(0xff); eval("plus1ff", pf, true, 1);
+    if (c.serialized.size() > c.exact.size()) eval("padded", c.serialized, true, (int)(c.serialized.size() - c.exact.size()));
+    for (size_t n = 0; n < c.exact.size(); ++n) eval("cut" + str(n), Bytes(c.exact.begin(), c.exact.begin() + n), false, -1);
+    return bad;
+}
+
+static int min_part(bool verbose) {
+    int bad = 0;
+    std::vector<MPath> paths = min_paths();
+    for (auto& p : paths) { bad += run_min_case(p, "", verbose); R.count("minimal_paths"); }
+    // obligations from the generated class table
+    std::string with, without;
+    for (auto& r : class_table()) {
+        (r.overrides ? with : without) += (r.overrides ? (with.empty() ? "" : " ") : (without.empty() ? "" : " ")) + r.name.substr(r.name.rfind(':') + 1);
+        if (!r.overrides) continue;
+        R.count("classes_with_own_matcher");
+        if (g_cover.exact.count(r.name)) R.count("classes_last_layer_exact_accepted");
+        if (g_cover.plus1.count(r.name)) R.count("classes_last_layer_plus1_accepted");
+        // a class whose minimal mirror exists but is rejected is reported by match:minimal-mirror-rejected; this is for a class
+        // (e.g. one added to libtins later) for which the harness has no minimal mirror at all
+        if (!g_cover.tried_exact.count(r.name)) {
+            R.violation("harness:minimal-mirror-missing:" + r.name + ":exact", "class " + r.name + " overrides matches_response but the harness has no minimal mirror that ends exactly at "
+                        "the end of its minimal header", "part=min path=all var=all");
+            bad++;
+        }
+        if (!g_cover.tried_plus1.count(r.name)) {
+            R.violation("harness:minimal-mirror-missing:" + r.name + ":plus1", "class " + r.name + " overrides matches_response but the harness has no minimal mirror with exactly one "
+                        "byte behind its minimal header", "part=min path=all var=all");
+            bad++;
+        }
+    }
+    R.info["classes_with_own_matcher_list"] = jstr(with);
+    R.info["concrete_classes_without_matcher"] = jstr(without);
+    R.count("concrete_classes_in_generated_table", class_table().size());
+    return bad;
+}
+
 // ------------------------------------------------------------------ safety part
 struct Seed { Bytes wire; std::vector<int> starts; std::string name; };
 struct Obj { std::string name; std::function<PDU*()> make; std::vector<Seed> seeds; };
@@ -908,6 +1133,14 @@ static void run_job(int job) {
             R.count("history_passes");
         }
     }
+    // ---- minimal-mirror part (small; job 0 only so that the class obligations are decided in one place)
+    if (job == 0) {
+        uint64_t idx = mine++;
+        if (!(idx < A.skip || skipped(idx))) {
+            set_case(idx, "min", "part=min path=all var=all");
+            min_part(false);
+        }
+    }
     // ---- safety part (small), one unit = (object, length)
     std::vector<Obj>& objs = objects();
     for (size_t oi = 0; oi < objs.size() && !cut; ++oi) {
@@ -970,6 +1203,13 @@ static int replay(const std::string& kase) {
         bool all = kv["kind"] == "all";
         // try both tiers' substitution sets when replaying a whole (object, length) unit
         bad = run_safe(*o, *pdu, num(kv["len"]), all ? false : true, all ? 0 : &kv, !all);
+    } else if (kv["part"] == "min") {
+        if (kv["path"] == "all") bad = min_part(true);
+        else {
+            bool found = false;
+            for (auto& p : min_paths()) if (path_name(p) == kv["path"]) { found = true; bad = run_min_case(p, kv["var"] == "all" ? "" : kv["var"], true); }
+            if (!found) { printf("no such path\n"); return 2; }
+        }
     } else if (kv["part"] == "hist") {
         bad = hist_pass(num(kv["rot"]), true);
     } else { printf("bad case string\n"); return 2; }
